@@ -144,8 +144,11 @@ func (o *oracle) oracleFingerprint() {
 		if o.rng.Intn(2) == 0 {
 			_ = MessageIntegrity("key").AddTo(m)
 		}
-		mode := o.rng.Intn(4)
+		mode := o.rng.Intn(5)
 		switch mode {
+		case 4: // a wrong 4-byte FINGERPRINT first, then a correct one as the last attribute: the FIRST one decides
+			m.Add(AttrFingerprint, o.randBytes(4))
+			_ = Fingerprint.AddTo(m)
 		case 0, 1:
 			if err := Fingerprint.AddTo(m); err != nil {
 				o.failf("Fingerprint.AddTo: %v", err)
